@@ -213,6 +213,8 @@ inline uintptr_t opaque_addr(const void* p) {
   asm volatile("" : "+r"(a));
   return a;
 }
+// values outside the tiny value set are address fragments or scribble: keep violation messages reproducible
+inline std::string shown(int v) { return (v >= -16 && v <= 16) ? std::to_string(v) : std::string("garbage"); }
 inline int getv(const int& x) { return x; }
 inline int getv(const seq::Tracked<int>& x) { return x.v; }
 inline int getv(const BigAligned& x) { return x.v; }
@@ -405,17 +407,17 @@ struct Runner {
     if (x.begin() != x.data() || cx.begin() != cx.data() || cx.cbegin() != cx.data()) return hard("iter", "begin() != data()");
     size_t i = 0;
     for (auto it = x.begin(); it != x.end(); ++it, ++i) {
-      if (getv(*it) != m[i]) return hard("contents", seq::fmt("iteration: element %zu is %d, std::vector has %d", i, getv(*it), m[i]));
+      if (getv(*it) != m[i]) return hard("contents", seq::fmt("iteration: element %zu is %s, std::vector has %d", i, shown(getv(*it)).c_str(), m[i]));
     }
     i = 0;
     for (const auto& e : cx) {
-      if (getv(e) != m[i]) return hard("contents", seq::fmt("const iteration: element %zu is %d, std::vector has %d", i, getv(e), m[i]));
+      if (getv(e) != m[i]) return hard("contents", seq::fmt("const iteration: element %zu is %s, std::vector has %d", i, shown(getv(e)).c_str(), m[i]));
       ++i;
     }
     for (i = 0; i < n; i++) {
       if (&x[i] != x.data() + i || &cx[i] != cx.data() + i) return hard("iter", "operator[] address != data()+i");
       if (getv(x[i]) != m[i] || getv(cx[i]) != m[i])
-        return hard("contents", seq::fmt("operator[]: element %zu is %d, std::vector has %d", i, getv(x[i]), m[i]));
+        return hard("contents", seq::fmt("operator[]: element %zu is %s, std::vector has %d", i, shown(getv(x[i])).c_str(), m[i]));
       // &x[i] == data()+i was just checked; the address is taken from the raw pointer and hidden from the optimiser,
       // which would otherwise fold "T& is aligned" into this test
       uintptr_t ad = opaque_addr(x.data()) + i * sizeof(T);
